@@ -101,3 +101,182 @@ Example C08_example :
     apply_diff ex2_conv kv_isort dbA [[45; 1; 10]; [43; 0; 1]] = Err E_CONV.
 Proof. exact diff_example. Qed.
 Print Assumptions C08_example.
+
+(* ================================================================================================
+   C08 ON TEXT: the Section variables of the theorems above instantiated with the CONCRETE codec of
+   Model/Text.v (proofs: Proofs/LinkDiffText.v, Proofs/LinkPreprocDiff.v).
+     convert_ln o v2 serial l   Codec.ConvertLn under rdb.initCodec with UseV2Keys = v2 (both key layouts)
+                                and Codec.Serial = serial: parse_line, Acc.update, convert v2 true
+     features v2                the feature record
+     pre_file o v2 serial f     every line of f: type character not '%' (preprocessed: range point lines
+                                instead of subnets), parse_line accepts it, every value it compiles to
+                                is shorter than 2^32 bytes (pre_lineb, decidable on the text)
+     text_records o v2 serial f flat_map (convert v2 true o parse_line) f ++ feature record
+   o : toracles holds the library functions (net.ParseIP, ...); nothing is assumed of it here.
+   ================================================================================================ *)
+From DnsV Require Import Model.Rearranger Model.Text Model.Preproc Proofs.Rearranger.
+From DnsV Require Import Proofs.LinkDiffText Proofs.LinkPreprocRearranger Proofs.LinkPreprocDiff Proofs.LinkPreprocDiffExample.
+
+(* every codec hypothesis of C08_diff_is_recompile holds for preprocessed text *)
+Theorem C08_text_codec_hypotheses : forall o v2 serial f, pre_file o v2 serial f ->
+  accepted bytes (convert_ln o v2 serial) f = true /\
+  kvs_ok (records bytes (convert_ln o v2 serial) no_accum (features v2) f) /\
+  features v2 <> [] /\
+  records bytes (convert_ln o v2 serial) no_accum (features v2) f = text_records o v2 serial f.
+Proof.
+  intros o v2 serial f H.
+  exact (conj (pre_file_accepted o v2 serial f H) (conj (pre_file_kvs_ok o v2 serial f H)
+        (conj (feat_nonempty v2) (records_text o v2 serial f H)))).
+Qed.
+Print Assumptions C08_text_codec_hypotheses.
+
+(* the compiler's view of a preprocessed TEXT file (Model/Preproc.compile: TrimLeft, short lines and
+   comments skipped, ConvertLn, rearranger points, feature record) is the record list of C07 / C08 with
+   an empty accumulator, for any rearranger that makes nothing of nothing; scanned_lineb: two bytes or
+   more, no leading space *)
+Theorem C08_text_compile_is_records : forall o v2 serial rearrange f, rearrange [] = [] ->
+  pre_file o v2 serial f -> forallb scanned_lineb f = true ->
+  Model.Preproc.compile o rearrange v2 serial f = Ok (records bytes (convert_ln o v2 serial) no_accum (features v2) f).
+Proof. exact text_compile_pre. Qed.
+Print Assumptions C08_text_compile_is_records.
+
+(* the diff A -> B of two preprocessed text files, its lines in any order, applied to a database compiled
+   from A succeeds and gives a database compiled from B: under every key the multiset of values the text
+   of B compiles to, which is what any C07 compilation of B holds *)
+Theorem C08_diff_is_recompile_text : forall o v2 serial sort, sort_ok sort -> forall A B d dbA,
+  pre_file o v2 serial A -> pre_file o v2 serial B -> is_line_diff A B d ->
+  compiled (convert_ln o v2 serial) (features v2) A dbA ->
+  exists db', apply_diff (convert_ln o v2 serial) sort dbA d = Ok db' /\
+    compiled (convert_ln o v2 serial) (features v2) B db' /\
+    (forall k, Permutation (vals db' k) (vals_of k (text_records o v2 serial B))) /\
+    (forall dbB, rdb_compilation bytes (convert_ln o v2 serial) no_accum (features v2) B dbB ->
+       forall k, Permutation (vals db' k) (vals dbB k)).
+Proof. exact diff_is_recompile_text. Qed.
+Print Assumptions C08_diff_is_recompile_text.
+
+Theorem C08_compilers_compile_text : forall o v2 serial f db, pre_file o v2 serial f ->
+  rdb_compilation bytes (convert_ln o v2 serial) no_accum (features v2) f db ->
+  compiled (convert_ln o v2 serial) (features v2) f db.
+Proof. exact compilers_compile_text. Qed.
+Print Assumptions C08_compilers_compile_text.
+
+(* chains of diffs between preprocessed text files (chain_pre: every file of the chain is pre_file and
+   every step a line diff) *)
+Theorem C08_chain_text : forall o v2 serial sort, sort_ok sort -> forall steps A db,
+  pre_file o v2 serial A -> compiled (convert_ln o v2 serial) (features v2) A db ->
+  chain_pre o v2 serial A steps ->
+  exists db', apply_chain (convert_ln o v2 serial) sort db (map fst steps) = Ok db' /\
+              compiled (convert_ln o v2 serial) (features v2) (final_file A steps) db'.
+Proof. exact diff_chain_text. Qed.
+Print Assumptions C08_chain_text.
+
+(* when a line fails to convert, computed from the text alone (independent of serial and key layout):
+   parse_error = the error of DecodeLn: empty line (decodeRtype panics), a type character outside the 17
+   (ErrBadRType), a location field that does not unquote, a '%' network that does not parse, a B/H
+   parameter list FromText rejects; convert_error adds Acc.update: a '%' line whose location is not two
+   bytes long.  Nothing else makes ConvertLn fail. *)
+Theorem C08_convert_error : forall o v2 serial l,
+  (forall e, parse_line o serial l = Err e <-> parse_error o l = Some e) /\
+  (forall e, convert_ln o v2 serial l = Err e <-> convert_error o l = Some e) /\
+  ((exists x, convert_ln o v2 serial l = Ok x) <-> convert_error o l = None) /\
+  (forall x, convert_ln o v2 serial l = Ok x -> exists r, parse_line o serial l = Ok r /\ x = convert v2 true r) /\
+  (line_ok (convert_ln o v2 serial) l <-> diff_line_okb o l = true).
+Proof.
+  intros o v2 serial l. split; [intro e; apply parse_err_iff|]. split; [intro e; apply convert_err_iff|].
+  split; [apply convert_ok_iff|]. split; [|apply diff_line_ok_iff].
+  intros x H. pose proof (convert_error_spec o v2 serial l) as S. rewrite H in S. exact (proj2 S).
+Qed.
+Print Assumptions C08_convert_error.
+
+(* a failing diff leaves the database as it was; it fails at a line that is malformed on the text
+   (diff_line_okb: bad operator, or an argument with a convert_error), or because some key would lose a
+   value it does not hold.  plus_smallb: the values a '+' line adds are shorter than 2^32 bytes *)
+Theorem C08_all_or_nothing_text : forall o v2 serial sort, sort_ok sort -> forall db d e, store_ok db ->
+  forallb (plus_smallb o v2 serial) d = true ->
+  apply_diff (convert_ln o v2 serial) sort db d = Err e ->
+  fst (apply_diff_effect (convert_ln o v2 serial) sort db d) = db /\
+  (((e = E_CONV \/ e = E_BADOP) /\ exists l, In l d /\ diff_line_okb o l = false) \/
+   (forallb (diff_line_okb o) d = true /\ e = E_NXVAL /\
+    exists k, ~ msub (vals_of k (dels_of (convert_ln o v2 serial) d))
+                     (vals db k ++ vals_of k (adds_of (convert_ln o v2 serial) d)))).
+Proof. exact all_or_nothing_text. Qed.
+Print Assumptions C08_all_or_nothing_text.
+
+Theorem C08_bad_line_fails_text : forall o v2 serial sort db d,
+  (exists l, In l d /\ diff_line_okb o l = false) ->
+  exists e, apply_diff (convert_ln o v2 serial) sort db d = Err e.
+Proof. exact bad_line_fails_text. Qed.
+Print Assumptions C08_bad_line_fails_text.
+
+(* C09 + C07 + C08, end to end, all guards explicit.  For ORIGINAL data files A and B (with subnet lines):
+     library premises on o (as in C09), sort.Slice of the rearranger (sort_spec) and of the batch
+     (sort_ok), serial <= max32, the preprocessor run with the same serial or none,
+     wf_file (C09's guard, outside F12/F26/F27/F8 as C09 states them), file_subnets_wfb (C03's guard
+     wf_subnets on the subnets of every map), values shorter than 2^32 bytes (kvs_ok of the records of
+     the scanned file; scan = the lines parse() hands on), text_accum = the accumulator with the concrete
+     rearranger (Proofs/LinkPreprocDiff.v)
+   the preprocessor succeeds on both; for every order pa / pb in which the range point lines are written,
+   the preprocessed texts PA, PB are scanned text, every C07 compilation of PA is a database the diff
+   applies to, and ANY line diff PA -> PB applied to it gives a database that holds, under every key, the
+   multiset of values ANY C07 compilation of the ORIGINAL B holds. *)
+Theorem C08_preprocessed_diff_end_to_end : forall o,
+  (forall a, wf_bytes a -> length a = 16%nat -> o_parse_ip o (o_print_ip o a) = Some a) ->
+  o_parse_ip o [] = None ->
+  (forall a, contains 44 (o_print_ip o a) = false) ->
+  forall sort, sort_spec sort ->
+  forall v2 serial pserial, serial <= max32 -> pserial = serial \/ pserial = 0 ->
+  forall ksort, sort_ok ksort ->
+  forall A B,
+  Proofs.Preproc.wf_file o serial A -> file_subnets_wfb o serial A = true ->
+  kvs_ok (records bytes (convert_ln o v2 serial) (text_accum o v2 serial (rearrange_total sort)) (features v2) (scan A)) ->
+  Proofs.Preproc.wf_file o serial B -> file_subnets_wfb o serial B = true ->
+  kvs_ok (records bytes (convert_ln o v2 serial) (text_accum o v2 serial (rearrange_total sort)) (features v2) (scan B)) ->
+  exists bodyA pointsA bodyB pointsB,
+    preprocess o (rearrange_total sort) pserial A = Ok (bodyA ++ map (marshal o) pointsA) /\
+    preprocess o (rearrange_total sort) pserial B = Ok (bodyB ++ map (marshal o) pointsB) /\
+    forall pa pb, Permutation pa pointsA -> Permutation pb pointsB ->
+      let PA := bodyA ++ map (marshal o) pa in
+      let PB := bodyB ++ map (marshal o) pb in
+      scan PA = PA /\ scan PB = PB /\
+      (forall dbA, rdb_compilation bytes (convert_ln o v2 serial) (text_accum o v2 serial (rearrange_total sort))
+                     (features v2) (scan PA) dbA ->
+                   compiled (convert_ln o v2 serial) (features v2) PA dbA) /\
+      forall d dbA, is_line_diff PA PB d -> compiled (convert_ln o v2 serial) (features v2) PA dbA ->
+        exists db', apply_diff (convert_ln o v2 serial) ksort dbA d = Ok db' /\
+          compiled (convert_ln o v2 serial) (features v2) PB db' /\
+          forall dbB, rdb_compilation bytes (convert_ln o v2 serial) (text_accum o v2 serial (rearrange_total sort))
+                        (features v2) (scan B) dbB ->
+            forall k, Permutation (vals db' k) (vals dbB k).
+Proof. exact preprocessed_diff_end_to_end. Qed.
+Print Assumptions C08_preprocessed_diff_end_to_end.
+
+(* non-vacuity (Proofs/LinkPreprocDiffExample.v): two files with subnet lines for two maps over the toy
+   address syntax o_toy satisfy every guard; the preprocessed forms have 5 and 8 lines; a shuffled five-line
+   diff (with a comment and an empty line) applied to a builder compilation of preprocess A agrees on all
+   15 keys with a batch compilation of the original B, while the database before does not; malformed
+   lines fail with the error classes of C08_convert_error *)
+Example C08_text_example :
+  sort_spec isort /\ sort_ok kv_isort /\
+  Proofs.Preproc.wf_file x_o 7 x_A /\ Proofs.Preproc.wf_file x_o 7 x_B /\
+  file_subnets_wfb x_o 7 x_A = true /\ file_subnets_wfb x_o 7 x_B = true /\
+  kvs_ok (records bytes x_conv x_acc x_feat (scan x_A)) /\ kvs_ok (records bytes x_conv x_acc x_feat (scan x_B)) /\
+  preprocess x_o x_R 0 x_A = Ok x_PA /\ preprocess x_o x_R 0 x_B = Ok x_PB /\
+  length x_PA = 5%nat /\ length x_PB = 8%nat /\ length (file_nets x_o 7 x_B) = 2%nat /\
+  pre_file x_o true 7 x_PA /\ pre_file x_o true 7 x_PB /\ forallb scanned_lineb x_PB = true /\
+  is_line_diff x_PA x_PB (filter (fun l => match l with 43 :: _ | 45 :: _ => true | _ => false end) x_d) /\
+  exists dbA dbB db',
+    compile_builder bytes x_conv kv_isort 1 2 (scan x_PA) (records bytes x_conv x_acc x_feat (scan x_PA)) = Ok dbA /\
+    compile_batches bytes x_conv kv_isort (scan x_B) (rev (batches 3 (records bytes x_conv x_acc x_feat (scan x_B)))) = Ok dbB /\
+    apply_diff x_conv kv_isort dbA x_d = Ok db' /\
+    length x_keys = 15%nat /\
+    map (vals db') x_keys = map (vals dbB) x_keys /\
+    map (vals dbA) x_keys <> map (vals dbB) x_keys /\
+    apply_diff x_conv kv_isort dbA [43 :: x_a2; 42 :: x_a1] = Err E_BADOP /\
+    apply_diff x_conv kv_isort dbA [43 :: x_a2; [45; 35; 120]] = Err E_CONV /\
+    convert_error x_o [35; 120] = Some E_BADTYPE /\
+    convert_error x_o [43; 97; 44; 44; 44; 44; 92] = Some E_QUOTE /\
+    convert_error x_o [37; 44; 44; 109; 49] = Some E_LOC /\
+    convert_error x_o [] = Some Model.Text.E_PANIC /\
+    apply_diff x_conv kv_isort dbA [45 :: x_a2] = Err E_NXVAL.
+Proof. exact link_example. Qed.
+Print Assumptions C08_text_example.
